@@ -65,3 +65,62 @@ package keygen
 //@   ensures[C20] result1 == nil ==> result0 != nil
 //@   loop 1: invariant fresh(verificationSharesCopy)
 //@   loop 2: invariant fresh(verificationSharesCopy)
+
+// ---- derivation (C14): a new configuration; the parent is left untouched; share + adjust, Y + adjust*G,
+// Y_j + adjust*G for every party, the given (or inherited) 32-byte chain key.
+//@ func (*Config).Derive
+//@   nopanic[C05,C14]
+//@   requires fcfgwf(r) && adjust != nil
+//@   modifies nothing
+//@   allocates
+//@   ensures[C14] result1 != nil ==> result0 == nil
+//@   ensures[C14] result1 == nil ==> (result0 != nil && fresh(result0) && fresh(result0.PrivateShare) && result0.PrivateShare != r.PrivateShare)
+//@   ensures[C14] result1 == nil ==> scval(result0.PrivateShare) == s_add(old(scval(r.PrivateShare)), old(scval(adjust)))
+//@   ensures[C14] scval(r.PrivateShare) == old(scval(r.PrivateShare)) && scval(adjust) == old(scval(adjust))
+//@   ensures[C14] result1 == nil ==> ptval(result0.PublicKey) == p_add(old(ptval(r.PublicKey)), act(old(scval(adjust)), gen()))
+//@   ensures[C14] result1 == nil ==> (len(result0.ChainKey) == 32 && result0.ChainKey == ite(len(newChainKey) <= 0, r.ChainKey, newChainKey))
+//@   ensures[C14] result1 == nil ==> (result0.Threshold == r.Threshold && result0.ID == r.ID)
+//@   ensures[C14] result1 == nil ==> forall(k, party.ID, indom(r.VerificationShares.Points, k) ==> (indom(result0.VerificationShares.Points, k) && ptval(result0.VerificationShares.Points[k]) == p_add(old(ptval(r.VerificationShares.Points[k])), act(old(scval(adjust)), gen()))))
+//@   ensures[C14] result1 == nil ==> forall(k, party.ID, indom(result0.VerificationShares.Points, k) ==> indom(r.VerificationShares.Points, k))
+//@   loop 1: invariant fresh(verificationShares) && adjustG != nil && ptval(adjustG) == act(old(scval(adjust)), gen()) && fcfgwf(r)
+//@   loop 1: invariant forall(k, party.ID, indom(verificationShares, k) ==> verificationShares[k] != nil)
+//@   loop 1: invariant[C14] forall(k, party.ID, visited(1, k) ==> (indom(verificationShares, k) && ptval(verificationShares[k]) == p_add(old(ptval(r.VerificationShares.Points[k])), ptval(adjustG))))
+//@   loop 1: invariant[C14] forall(k, party.ID, indom(verificationShares, k) ==> visited(1, k))
+//@   loop 1: invariant[C14] forall(k, party.ID, visited(1, k) ==> indom(r.VerificationShares.Points, k))
+//@   loop 1: invariant r.VerificationShares == old(r.VerificationShares) && r.VerificationShares.Points == old(r.VerificationShares.Points) && domset(r.VerificationShares.Points) == old(domset(r.VerificationShares.Points)) && mapval(r.VerificationShares.Points) == old(mapval(r.VerificationShares.Points))
+//@   loop 1: invariant forall(k, party.ID, indom(r.VerificationShares.Points, k) ==> ptval(r.VerificationShares.Points[k]) == old(ptval(r.VerificationShares.Points[k])))
+
+//@ func (*Config).DeriveChild
+//@   requires fcfgwf(r)
+//@   nopanic[C14,C05]
+//@   requires i < 2147483648
+//@   ensures[C14] result1 != nil ==> result0 == nil
+//@   ensures[C14] result1 == nil ==> (result0 != nil && len(result0.ChainKey) == 32)
+//@   assert_at[C14] DeriveScalar "bip32.DeriveScalar(publicKey, r.ChainKey, i)": arg1 == r.ChainKey && arg2 == i && iface(arg0) == r.PublicKey
+
+// Taproot derivation (C14): as above, then normalised to the even-Y representative of the child key: if
+// Y' = liftx(Y) + adjust*G has odd y, the share and every verification share are negated; the key is x(Y').
+//@ func (*TaprootConfig).Derive
+//@   nopanic[C05,C14]
+//@   requires tcfgwf(r) && adjust != nil
+//@   modifies nothing
+//@   allocates
+//@   let Y2 = p_add(liftx(bval(r.PublicKey)), act(old(scval(adjust)), gen()))
+//@   let s2 = s_add(old(scval(r.PrivateShare)), old(scval(adjust)))
+//@   ensures[C14] result1 != nil ==> result0 == nil
+//@   ensures[C14] result1 == nil ==> (result0 != nil && fresh(result0) && result0.PrivateShare != nil && fresh(result0.PrivateShare))
+//@   ensures[C14] result1 == nil ==> scval(result0.PrivateShare) == ite(even_y(Y2), s2, s_neg(s2))
+//@   ensures[C14] scval(r.PrivateShare) == old(scval(r.PrivateShare)) && scval(adjust) == old(scval(adjust))
+//@   ensures[C14] result1 == nil ==> bval(result0.PublicKey) == xbytes(Y2)
+//@   ensures[C14] result1 == nil ==> (len(result0.ChainKey) == 32 && result0.ChainKey == ite(len(newChainKey) <= 0, r.ChainKey, newChainKey))
+//@   ensures[C14] result1 == nil ==> (result0.Threshold == r.Threshold && result0.ID == r.ID)
+//@   loop 1: invariant fresh(verificationShares) && adjustG != nil && ptval(adjustG) == act(old(scval(adjust)), gen()) && tcfgwf(r)
+//@   loop 1: invariant forall(k, party.ID, indom(verificationShares, k) ==> verificationShares[k] != nil)
+//@   loop 2: invariant fresh(verificationShares) && forall(k, party.ID, indom(verificationShares, k) ==> verificationShares[k] != nil)
+
+//@ func (*TaprootConfig).DeriveChild
+//@   nopanic[C14,C05]
+//@   requires tcfgwf(r) && i < 2147483648
+//@   ensures[C14] result1 != nil ==> result0 == nil
+//@   ensures[C14] result1 == nil ==> (result0 != nil && len(result0.ChainKey) == 32)
+//@   assert_at[C14] DeriveScalar "bip32.DeriveScalar(publicKey, r.ChainKey, i)": arg1 == r.ChainKey && arg2 == i && ptval(arg0) == liftx(bval(r.PublicKey))
